@@ -313,6 +313,7 @@ func doParsing(mp *msgParser) (err error) {
 // parseGroup iterates through a repeating group to maintain correct order of those fields.
 func parseGroup(mp *msgParser, tags []Tag) {
 	mp.foundBody = true
+	mp.trailerBytes = mp.rawBytes
 	dm := mp.msg.fields[mp.fieldIndex : mp.fieldIndex+1]
 	fields := getGroupFields(mp.msg, tags, mp.appDataDictionary)
 
@@ -325,7 +326,10 @@ func parseGroup(mp *msgParser, tags []Tag) {
 		}
 		mp.parsedFieldBytes = &mp.msg.fields[mp.fieldIndex]
 		mp.rawBytes, _ = extractField(mp.parsedFieldBytes, mp.rawBytes)
-		mp.trailerBytes = mp.rawBytes
+		// The trailer starts after the last body field: a header or trailer field ending the group is not part of the body.
+		if !isHeaderField(mp.parsedFieldBytes.tag, mp.transportDataDictionary) && !isTrailerField(mp.parsedFieldBytes.tag, mp.transportDataDictionary) {
+			mp.trailerBytes = mp.rawBytes
+		}
 
 		// Is this field a member for the group.
 		if isGroupMember(mp.parsedFieldBytes.tag, fields) {
